@@ -1,9 +1,11 @@
 /-
-  C06 — the scalar signature instantiated at ℝ (noncomputable; proofs only) and the
-  bridge lemmas that turn the signature's operations into Mathlib's.
+  C06 — the libm extension `Trig` instantiated at ℝ (noncomputable; proofs only) and the bridge lemmas
+  that turn the scalar signature's operations into Mathlib's.  The `Scalar ℝ` instance is C05's
+  (`Gama.instScalarReal`, Lemmas/LinSpec.lean) so that the C05 right-hand-side theorems can be used.
   atan2 y x := Complex.arg (x + y i).
 -/
 import Gama.Model.Cogo
+import Gama.Lemmas.LinSpec
 import Mathlib.Analysis.SpecialFunctions.Complex.Arg
 import Mathlib.Analysis.SpecialFunctions.Sqrt
 import Mathlib.Tactic.Ring
@@ -14,24 +16,6 @@ import Mathlib.Tactic.LinearCombination
 
 namespace Gama.C06R
 open Gama
-
-noncomputable scoped instance instScalarReal : Scalar ℝ where
-  toAdd := inferInstance
-  toSub := inferInstance
-  toMul := inferInstance
-  toDiv := inferInstance
-  toNeg := inferInstance
-  toZero := inferInstance
-  toOne := inferInstance
-  toLT := inferInstance
-  toLE := inferInstance
-  sqrt := Real.sqrt
-  ofNat := fun n => (n : ℝ)
-  ofSci := fun m s e => if s then (m : ℝ) / 10 ^ e else (m : ℝ) * 10 ^ e
-  decLt := fun a b => Classical.propDecidable (a < b)
-  decLe := fun a b => Classical.propDecidable (a ≤ b)
-  beq := fun a b => @decide (a = b) (Classical.propDecidable _)
-  abs := fun a => |a|
 
 noncomputable scoped instance instTrigReal : Trig ℝ where
   sin := Real.sin
